@@ -21,6 +21,10 @@ From Coq Require Import String.
 From Coq Require Import List Ascii ZArith Bool Permutation.
 From CGV Require Import Base.PyBase Base.PyVal Gen.ResolveGen Resolve.Bonding Resolve.BondingDefs
      Resolve.BondingSpec Resolve.BondingProofs Resolve.BondingCheck Resolve.CutCheck Resolve.CutBonding Resolve.CutFold.
+From CGV Require Import Base.NxGraph Resolve.GraphOps Hydro.SquashDefs Hydro.HydroDefs.
+From CGV Require Hydro.Hydrogens Hydro.Squash.
+From CGV Require Import Compose.GraphAdj Compose.CutModel Compose.CutSkeleton.
+From CGV Require Compose.Statements.
 Import ListNotations.
 Open Scope Z_scope.
 
@@ -75,8 +79,43 @@ Example C01_step_nonvacuous :
   exists s' acc', edges_from_bonding true (fun _ => false) (map edge_of ES) s [] = Ok (s', acc') /\ length acc' = 2%nat.
 Proof. split; [vm_compute; reflexivity|]. split; [vm_compute; reflexivity|]. eexists. eexists. split; [vm_compute; reflexivity|reflexivity]. Qed.
 
+
+(** * Graph level (theories/Compose): the disconnected step + bonding step of the resolver model on
+    (base graph, template graphs) of ANY well-formed cut of a molecule M rebuild M's skeleton — nodes in
+    explicit bijection (part, index) -> offset(part)+index, M's attributes, exactly M's bonds with their
+    orders (descriptor digit, 1.5 between two aromatic atoms), `bonding` only on cut bonds — with totality
+    proved; then no `!` bond (squash is the identity), hydrogen completion (C09) and sorting (C12).
+    Legacy matching; templates without E/Z marks.  Text level (pysmiles) stays in C13. *)
+Theorem C01_graph_level_skeleton : forall C, wf_cut C -> forall fd, templates_ok C fd -> forall B, is_base C B -> forall aa : bool,
+  (aa = true -> forall x, In x (flat C) ->
+     (exists e, aget (S "element") (payload C x) = Some e) /\ exists h, aget (S "hcount") (payload C x) = Some (VInt h)) ->
+  exists m1 fg1 m2 fg2,
+    resolve_disconnected fd B = Ok (m1, fg1) /\ bonding_step true aa B m1 fg1 = Ok (m2, fg2) /\ skeleton C aa m2.
+Proof. exact CGV.Compose.Statements.C01_cut_bonding_skeleton. Qed.
+
+Theorem C01_graph_level_all_atom_step : forall C, wf_cut C -> forall fd, templates_ok C fd -> forall B, is_base C B ->
+  (forall x, In x (flat C) ->
+     (exists e, aget (S "element") (payload C x) = Some e) /\ (exists q, aget (S "charge") (payload C x) = Some q) /\
+     (exists h, aget (S "hcount") (payload C x) = Some (VInt h)) /\ Hydrogens.is_H (payload C x) = false) ->
+  exists m1 fg1 m2 fg2,
+    resolve_disconnected fd B = Ok (m1, fg1) /\ bonding_step true true B m1 fg1 = Ok (m2, fg2) /\
+    skeleton C true m2 /\ adj_nodup m2 /\ wf_graph m2 /\ Squash.squash_atoms m2 = Ok m2.
+Proof. exact CGV.Compose.Statements.C01_cut_all_atom_step. Qed.
+
+(** hydrogen completion of the skeleton (every atom gets least fitting valence - bond sum hydrogens, heavy
+    edges unchanged) and the final relabelling: statements [cut_hydrogens], [cut_sorted] *)
+Definition C01_graph_level_hydrogens := CGV.Compose.Statements.C01_cut_hydrogens.
+Definition C01_graph_level_sorted := CGV.Compose.Statements.C01_cut_sorted.
+(** the label discipline of a well-formed cut meets the hypotheses of C01_bonding_step *)
+Definition C01_cut_tables_dedicated := CGV.Compose.Statements.C01_cut_tables_dedicated.
+Definition C01_cut_tables_disjoint := CGV.Compose.Statements.C01_cut_tables_disjoint.
+
 Print Assumptions C01_bonding_partial.
 Print Assumptions C01_bonding_step.
 Print Assumptions C01_disjointness_test_sound.
 Print Assumptions C01_base_edge_order_independent.
+Print Assumptions C01_graph_level_skeleton.
+Print Assumptions C01_graph_level_all_atom_step.
+Print Assumptions C01_graph_level_hydrogens.
+Print Assumptions C01_graph_level_sorted.
 Print Assumptions C01_hypothesis_test_sound.
